@@ -468,3 +468,80 @@ func (x *c02ctx) r9() {
 		r.Pass("R02.9", "operator-actions/set-by-the-ast-builder-only", "", fmt.Sprintf("%d assignments to node.action outside (*Interpreter).ast, none of an operator action; no operator generator installed directly", nAssign))
 	}
 }
+
+// R02.10: unary operator nodes are never retyped to an interface. The generators of the unary
+// operators (neg, pos, bitNot, not) dispatch on the kind of the node's type and have no case
+// for reflect.Interface; cfg's two shortcuts that let a unary node write straight into its
+// destination (assignment destination, result slot) also give the node the destination's
+// type, so each of them must exclude interface-typed destinations. Otherwise no closure is
+// installed and `var e interface{}; e = -x` silently ends the enclosing function.
+func (x *c02ctx) r10() {
+	ic, r := x.ic, x.r
+	info := ic.Info
+	cfgFn := ic.fn(r, "Interpreter.cfg")
+	if cfgFn == nil {
+		return
+	}
+	typFld, findexFld := ic.field("node", "typ"), ic.field("node", "findex")
+	var unaryCase *ast.CaseClause
+	ast.Inspect(cfgFn.Decl.Body, func(n ast.Node) bool {
+		if cc, ok := n.(*ast.CaseClause); ok {
+			for _, e := range cc.List {
+				if id, ok := unparen(e).(*ast.Ident); ok && id.Name == "unaryExpr" {
+					// the post-order case: the one that assigns findex
+					if len(callsIn(info, cc, false, "interp.typecheck.unaryExpr")) > 0 {
+						unaryCase = cc
+					}
+				}
+			}
+		}
+		return true
+	})
+	if unaryCase == nil {
+		r.Errorf("R02.10: the post-order case of unaryExpr was not found in cfg")
+		return
+	}
+	n := 0
+	ast.Inspect(unaryCase, func(nd ast.Node) bool {
+		cc, ok := nd.(*ast.CaseClause)
+		if !ok || cc == unaryCase || len(cc.List) != 1 {
+			return true
+		}
+		setsTyp, setsIdx := false, false
+		typFrom := ""
+		for _, st := range cc.Body {
+			if as, ok := st.(*ast.AssignStmt); ok {
+				for i, l := range as.Lhs {
+					switch selField(info, l) {
+					case typFld:
+						if id, ok := unparen(l.(*ast.SelectorExpr).X).(*ast.Ident); ok && id.Name == "n" && i < len(as.Rhs) {
+							setsTyp = true
+							typFrom = types.ExprString(as.Rhs[i])
+						}
+					case findexFld:
+						setsIdx = true
+					}
+				}
+			}
+		}
+		if !setsTyp || !setsIdx {
+			return true
+		}
+		n++
+		guarded := false
+		ast.Inspect(cc.List[0], func(m ast.Node) bool {
+			if u, ok := m.(*ast.UnaryExpr); ok && u.Op == token.NOT {
+				if c, ok := unparen(u.X).(*ast.CallExpr); ok && isCallTo(info, c, "interp.isInterface") {
+					guarded = true
+				}
+			}
+			return true
+		})
+		r.Check(guarded, "R02.10", fmt.Sprintf("cfg/case:unaryExpr/retyped-to-destination#%d/not-an-interface", n), ic.pos(cc.Pos()), "the shortcut is not taken for an interface-typed destination",
+			"this shortcut gives a unary operator node the type of its destination ("+typFrom+") without excluding interface types: the generators of the unary operators have no case for an interface kind, so no closure is installed and `var e interface{}; e = -x` (or return -x from a function returning interface{}) silently ends the enclosing function")
+		return true
+	})
+	if n < 2 {
+		r.Errorf("R02.10: %d shortcuts retyping a unary node found (assignment destination and result slot expected)", n)
+	}
+}
